@@ -69,7 +69,8 @@ Record nsobj := { n_name : string; n_labels : list (string * string) }.
 Record btp := {
   bt_ns : string; bt_name : string; bt_ts : Z; bt_targets : list string; bt_host : string;
   bt_ca : option string;            (* caCertificateRefs[0]: ConfigMap name in the policy's namespace *)
-  bt_wellknown : bool               (* wellKnownCACertificates: System *)
+  bt_wellknown : bool;              (* wellKnownCACertificates: System *)
+  bt_full : bool                    (* status.ancestors already holds 16 entries of other controllers: NGF must ignore it *)
 }.
 Record cmap := { cm_ns : string; cm_name : string; cm_ok : bool (* has a usable ca.crt *) }.
 
